@@ -28,6 +28,12 @@ type c14Scenario struct {
 	// checkpoint the way a client does (on 409 it retries from the reported size).
 	post  c14CP
 	bound int
+	// overlap: a second Witness instance ("w1", freshly started on the same
+	// stores) serves alongside the first ("w0", not crashed): on[i] is the
+	// instance request i is sent to; a request answered 5xx is retried once on
+	// the same instance. No crash move in these scenarios.
+	overlap bool
+	on      []int
 }
 
 func c14Add(old int, cp c14CP) c14Req {
@@ -51,7 +57,16 @@ func c14Scenarios(thorough bool) []*c14Scenario {
 		{name: "resign/2>main2|2>main3/cold", start: []c14CP{m(2)}, reqs: []c14Req{c14Add(2, m(2)), c14Add(2, m(3))}, post: m(4)},
 		{name: "fork-race-from-1/1>main2|1>fork3", start: []c14CP{m(1)}, warm: true, reqs: []c14Req{c14Add(1, m(2)), c14Add(1, f(3))}, post: f(3)},
 	}
+	// two live instances on one lock backend (overlapping restart)
+	scs = append(scs,
+		&c14Scenario{name: "overlap/w1:1>main2|w0:1>fork3", start: []c14CP{m(1)}, warm: true, overlap: true, on: []int{1, 0}, reqs: []c14Req{c14Add(1, m(2)), c14Add(1, f(3))}},
+		&c14Scenario{name: "overlap/w1:2>main3|w0:2>main4", start: []c14CP{m(2)}, warm: true, overlap: true, on: []int{1, 0}, reqs: []c14Req{c14Add(2, m(3)), c14Add(2, m(4))}},
+		&c14Scenario{name: "overlap/w0:0>main2|w1:0>fork2", overlap: true, on: []int{0, 1}, reqs: []c14Req{c14Add(0, m(2)), c14Add(0, f(2))}},
+	)
 	if thorough {
+		scs = append(scs,
+			&c14Scenario{name: "overlap3/w1:1>main2|w0:1>fork3|w1:2>main3", start: []c14CP{m(1)}, warm: true, overlap: true, on: []int{1, 0, 1}, reqs: []c14Req{c14Add(1, m(2)), c14Add(1, f(3)), c14Add(2, m(3))}},
+		)
 		scs = append(scs,
 			&c14Scenario{name: "three/0>main2|0>fork2|2>main3", reqs: []c14Req{c14Add(0, m(2)), c14Add(0, f(2)), c14Add(2, m(3))}, post: m(4)},
 			&c14Scenario{name: "three/2>main3|2>main4|3>main4/warm", start: []c14CP{m(2)}, warm: true, reqs: []c14Req{c14Add(2, m(3)), c14Add(2, m(4)), c14Add(3, m(4))}, post: m(4)},
@@ -104,13 +119,25 @@ func c14RunExec(t *testing.T, sc *c14Scenario, prefix []int) *verifmc.ExecResult
 		w.resps = nil
 		in.lh.Quiet, in.bh.Quiet = false, false
 		in.lh.NoFaults, in.bh.NoFaults = false, false
+		insts := []*c14Inst{in}
+		if sc.overlap {
+			// the new process starts (fault-free) while the old one keeps serving
+			in1, err := w.newInstance("w1", true, false)
+			if err != nil {
+				panic(verifmc.EngineError{Msg: "NewWitness (second instance): " + err.Error()})
+			}
+			in1.lh.Quiet, in1.bh.Quiet = false, false
+			in1.lh.NoFaults, in1.bh.NoFaults = false, false
+			insts = append(insts, in1)
+			w.overlap = true
+		}
 
 		s := verifmc.NewSched(prefix)
 		s.Stores = []*verifmc.Store{w.lock, w.obj}
 		s.KeyFn = w.keyFn
 		crashed := false
 		s.Moves = func() []verifmc.Move {
-			if crashed {
+			if crashed || sc.overlap {
 				return nil
 			}
 			return []verifmc.Move{{Label: "crash+restart", Cost: 1, Do: func() {
@@ -142,7 +169,15 @@ func c14RunExec(t *testing.T, sc *c14Scenario, prefix []int) *verifmc.ExecResult
 				}
 			}()
 			for i, r := range sc.reqs {
-				s.Go(fmt.Sprintf("r%d", i), func() { w.send(in, r) })
+				tin := in
+				if sc.overlap {
+					tin = insts[sc.on[i]]
+				}
+				s.Go(fmt.Sprintf("r%d", i), func() {
+					if resp := w.send(tin, r); sc.overlap && resp.Status >= 500 {
+						w.send(tin, r) // the client retries: 500, then 409
+					}
+				})
 			}
 			s.Run()
 			s.Drain()
@@ -201,26 +236,26 @@ func c14FinalChecks(w *c14World) {
 		w.violateLocked("final lock-store value is not a canonical signed checkpoint: %v", err)
 		return
 	}
-	if last := w.lockHist[len(w.lockHist)-1]; last.canon() != fin.canon() {
+	if last := w.ta.lockHist[len(w.ta.lockHist)-1]; last.canon() != fin.canon() {
 		w.violateLocked("final lock-store value %s is not the last monitored value %s", fin.canon(), last.canon())
 	}
 	// everything cosigned is a prefix of the final record (one chain)
 	if !fin.Empty {
-		if fcp, ok := w.t.identify(fin.N, fin.Root); ok {
-			for _, c := range w.cosigned {
+		if fcp, ok := w.t.identify(w.t.orgA, fin.N, fin.Root); ok {
+			for _, c := range w.ta.cosigned {
 				if !w.t.prefixOf(c.N, w.t.root(c), fcp) {
 					w.violateLocked("cosigned %s is not a prefix of the final record %s", c, fcp)
 				}
 			}
 		}
-	} else if len(w.cosigned) > 0 {
-		w.violateLocked("cosignatures were released (%v) but the final record is empty", w.cosigned)
+	} else if len(w.ta.cosigned) > 0 {
+		w.violateLocked("cosignatures were released (%v) but the final record is empty", w.ta.cosigned)
 	}
 	// brute-force linearizability of the answered requests against the
 	// sequential protocol: some order of the effective (recorded) requests
 	// reproduces the lock history, and every 200 is one of them.
 	var chain []string
-	for _, h := range w.lockHist {
+	for _, h := range w.ta.lockHist {
 		chain = append(chain, h.canon())
 	}
 	for _, r := range w.resps {
@@ -230,8 +265,8 @@ func c14FinalChecks(w *c14World) {
 		root := w.t.root(r.Req.CP)
 		want := c14Stored{N: r.Req.CP.N, Root: root}.canon()
 		found := false
-		for i := 1; i < len(w.lockHist); i++ {
-			if w.lockHist[i].canon() == want && w.lockHist[i-1].N == r.Req.Old {
+		for i := 1; i < len(w.ta.lockHist); i++ {
+			if w.ta.lockHist[i].canon() == want && w.ta.lockHist[i-1].N == r.Req.Old {
 				found = true
 			}
 		}
@@ -244,13 +279,15 @@ func c14FinalChecks(w *c14World) {
 func c14Outcome(w *c14World) string {
 	var b strings.Builder
 	b.WriteString(w.stateCanon())
-	b.WriteString(" hist=" + c14HistCanon(w.lockHist))
+	b.WriteString(" hist=" + c14HistCanon(w.ta.lockHist))
 	var rs []string
 	for _, r := range w.resps {
 		rs = append(rs, fmt.Sprintf("%s:%s=%s", r.Thread, r.Req, c14RespCanon(r)))
 	}
 	sort.Strings(rs)
 	b.WriteString(" resps=" + strings.Join(rs, ","))
-	fmt.Fprintf(&b, " insts=%d", len(w.insts))
+	for _, in := range w.insts {
+		fmt.Fprintf(&b, " %s:crashed=%v,cached=%s", in.name, in.crashed, in.cachedCanon())
+	}
 	return b.String()
 }
